@@ -178,7 +178,7 @@ def _stack_sym(arrs):
     return symnp.array([a.tolist() for a in arrs])
 
 
-def targets(all_pairs=False, only=None):
+def targets(all_pairs=False, only=None, force_two=False):
     T = []
     for p in PAIRS:
         if (not p.trace and not all_pairs) or (only is not None and p.name != only):
@@ -188,7 +188,7 @@ def targets(all_pairs=False, only=None):
         T.append(Target(f'C07_{p.name}_b1', p.inputs,
                         (lambda A, v, p=p: p.b(A, *[_stack_sym([_sym_group(v, g)]) for g in p.groups])[0]),
                         max_paths=p.max_paths, doc=f'array entry point of twin {p.name} on a one-row batch, row 0. {p.doc}'))
-        if p.two:
+        if p.two or force_two:
             T.append(Target(f'C07_{p.name}_b2', [OTHER(n) for n in p.inputs] + p.inputs,
                             (lambda A, v, p=p: p.b(A, *[_stack_sym([_sym_group(v, g, OTHER), _sym_group(v, g)]) for g in p.groups])[1]),
                             max_paths=p.max_paths, doc=f'array entry point of twin {p.name} on a two-row batch, row 1'))
@@ -262,6 +262,78 @@ def pregen(ctx):
                     ctx.agree(f'dagcorr:{name}_{side}')
                 else:
                     ctx.disagree(f'dagcorr:{name}_{side}', c, val if kind == 'val' else kind, io[1] if io[0] == 'val' else io[:2])
+    _pregen_repaired(ctx, pkg, thorough)
+
+
+# twins that hold only once a recorded defect is repaired: (pair, array-side target, mode, tags of the findings that excuse a failure).
+# While the finding is recorded and the DAGs differ nothing is claimed; as soon as the DAGs agree the equality is a checked obligation,
+# and once the finding line is dropped from known_findings.jsonl a later regression is a broken obligation (-> VIOLATION).
+DAG_REPAIRED = [
+    ('rpy2q', 'b2', 'equal', ['rpy2q/generic-differs']),
+    ('identity_deviation', 'b1', 'equal', ['identity_deviation/batch-always-raises']),
+    ('angular_distance', 'b1', 'equal', ['angular_distance/batch-always-raises']),
+    ('dcm_shepperd', 'b1', 'equal', ['dcm_shepperd/not-SO3-raises-vs-value']),
+    ('dcm_hughes', 'b1', 'equal', ['dcm_hughes/not-SO3-raises-vs-value']),
+    ('dcm_sarabandi', 'b1', 'equal', ['dcm_sarabandi/not-SO3-raises-vs-value']),
+]
+
+
+def _pregen_repaired(ctx, pkg, thorough):
+    from pysym import gen
+    from vlib.core import load_findings
+    from . import C07dag
+    recorded = {k['tag'] for k in load_findings(PID) if k.get('status', 'known') == 'known'}
+    for name, side, mode, tags in DAG_REPAIRED:
+        if name in DAG_THOROUGH and not thorough:
+            continue
+        trees = {}
+        for sd in ('s', side):
+            t = ctx.targets.get(f'C07_{name}_{sd}')
+            if t is None:
+                cand = [x for x in targets(all_pairs=True, only=name, force_two=(side == 'b2')) if x.name == f'C07_{name}_{sd}']
+                t = cand[0]
+                gen.trace(t, pkg)
+            trees[sd] = t
+        err = [t.error for t in trees.values() if t.error]
+        r = None if err else C07dag.compare(trees['s'].tree, trees[side].tree, mode)
+        if r is not None and r['ok']:
+            ctx.obligations += 1
+            ctx.discharged += 1
+            ctx.theorems.append(('C07dag.py', f'dag_{mode}:{name}_{side} (repaired twin)'))
+            ctx.say(f"[dag] {name}/{side}: repaired twin holds (mode {mode}, {r['leaf_pairs']} leaf pairs)")
+        elif any(t in recorded for t in tags):
+            ctx.say(f"[dag] {name}/{side}: not claimed: recorded finding {tags[0]} ({'untraceable: ' + err[0][:60] if err else str(r['n_mismatch']) + ' leaf mismatches'})")
+        else:
+            ctx.obligations += 1
+            ctx.broken.append({'kind': 'proof', 'file': 'C07dag.py', 'theorems': [f'dag:{name}_{side}'],
+                               'error': f'repaired twin {name}/{side} no longer holds and no finding is recorded for it',
+                               'detail': err[0] if err else repr(r['mismatches'])})
+            ctx.say(f"[dag] {name}/{side}: DIFFERENT and no finding recorded")
+    # Quaternion(angles=) / QuaternionArray(angles=) are synonyms of the rpy= constructors: same DAGs as the from_rpy pair, whose twin
+    # equality is the Coq theorem C07_from_rpy_partial
+    tags = ['from_angles/array-constructor-missing']
+    tr = {}
+    for nm in ('from_angles', 'from_rpy'):
+        for sd in ('s', 'b1'):
+            t = ctx.targets.get(f'C07_{nm}_{sd}')
+            if t is None:
+                t = [x for x in targets(all_pairs=True, only=nm) if x.name == f'C07_{nm}_{sd}'][0]
+                gen.trace(t, pkg)
+            tr[nm, sd] = t
+    ok = all(not t.error for t in tr.values()) and all(C07dag.compare(tr['from_rpy', sd].tree, tr['from_angles', sd].tree, 'equal')['ok'] and
+                                                       C07dag.compare(tr['from_angles', sd].tree, tr['from_rpy', sd].tree, 'equal')['ok'] for sd in ('s', 'b1'))
+    if ok:
+        ctx.obligations += 1
+        ctx.discharged += 1
+        ctx.theorems.append(('C07dag.py', 'dag_equal:from_angles_{s,b1} == from_rpy_{s,b1} (repaired twin, via C07_from_rpy_partial)'))
+        ctx.say("[dag] from_angles: both routes are the same DAGs as the from_rpy routes (repaired twin holds via C07_from_rpy_partial)")
+    elif any(t in recorded for t in tags):
+        ctx.say(f"[dag] from_angles: not claimed: recorded finding {tags[0]}")
+    else:
+        ctx.obligations += 1
+        ctx.broken.append({'kind': 'proof', 'file': 'C07dag.py', 'theorems': ['dag:from_angles'],
+                           'error': 'from_angles routes differ from the from_rpy routes and no finding is recorded'})
+        ctx.say("[dag] from_angles: DIFFERENT and no finding recorded")
 
 
 def targets_all():
@@ -272,8 +344,7 @@ STAGES = [
     ['C07_tac.v'],
     ['C07_quat.v', 'C07_dcm.v', 'C07_metrics.v', 'C07_est.v',
      ('C07_refuted_gates.v', {'finding': 'from_rpy/out-of-range-raises-vs-value'}),
-     ('C07_refuted_chiaverini.v', {'finding': 'chiaverini/half-turn-nan'}),
-     ('C07_refuted_rpy2q.v', {'finding': 'rpy2q/generic-differs'})],
+     ('C07_refuted_chiaverini.v', {'finding': 'chiaverini/half-turn-nan'})],
     ['C07.v'],
 ]
 COQ_TIMEOUT = 100
